@@ -395,3 +395,57 @@ def block_replay(variant, prop, tier, seed, part, start, run, cls=None, want_dig
                 if d[0] == run:
                     digest = d[1]
     return classes, digest
+
+
+# ----------------------------------------------------------------------------- valgrind (memcheck) on the plain build
+VG = ["valgrind", "-q", "--error-exitcode=99", "--errors-for-leak-kinds=none", "--leak-check=no", "--num-callers=30"]
+
+
+def classify_valgrind(stderr):
+    """First memcheck error with a cctz frame -> 'valgrind:<kind>@<function>' (None if there is none)."""
+    kind = None
+    for line in stderr.split("\n"):
+        m = re.match(r"==\d+== ([A-Z][^=]*)$", line)
+        if m and not line.startswith("==") is False:
+            pass
+        m = re.match(r"==\d+== (Conditional jump or move depends on uninitialised value|Use of uninitialised value|Invalid read|Invalid write|Invalid free|Mismatched free|Syscall param .* uninitialised|Source and destination overlap)", line)
+        if m:
+            kind = m.group(1).lower().replace(" ", "-")
+            continue
+        if kind:
+            f = re.match(r"==\d+==\s+(?:at|by) 0x[0-9A-F]+: (.*?) \(", line)
+            if f and "cctz::" in f.group(1):
+                fn = f.group(1).split("(")[0]
+                return "valgrind:%s@%s" % (kind, fn)
+            if re.match(r"==\d+==\s*$", line):
+                kind = None   # error block ended without a cctz frame: harness or libc, not ours to judge
+    return None
+
+
+def valgrind_block(prop, tier, seed, part, start, count):
+    binary = os.path.join(B.BUILD, "gzero", "simzone")
+    cmd = VG + [binary, "worker", "--prop", prop, "--tier", tier, "--seed", str(seed), "--start", str(start), "--count", str(count)] + (["--part", part] if part else [])
+    try:
+        p = subprocess.run(cmd, capture_output=True, text=True, env=_env(), timeout=1800, errors="replace")
+    except subprocess.TimeoutExpired:
+        return None, "timeout"
+    return p.returncode, p.stderr
+
+
+def valgrind_case(case, timeout=600):
+    binary = os.path.join(B.BUILD, "gzero", "simzone")
+    os.makedirs(WORK, exist_ok=True)
+    fd, path = tempfile.mkstemp(prefix="vgcase-", suffix=".json", dir=WORK)
+    with os.fdopen(fd, "w") as f:
+        json.dump(case, f)
+    try:
+        p = subprocess.run(VG + [binary, "replay", path], capture_output=True, text=True, env=_env(), timeout=timeout, errors="replace")
+        cls = classify_valgrind(p.stderr) if p.returncode == 99 else None
+        return ([cls] if cls else []), dict(rc=p.returncode, stderr=p.stderr[-4000:])
+    except subprocess.TimeoutExpired:
+        return [], dict(timeout=True)
+    finally:
+        try:
+            os.remove(path)
+        except OSError:
+            pass
